@@ -952,6 +952,20 @@ where
         }
     }
     sessions.push(std::mem::replace(&mut ops, vec![]));
+    // white box: per-window records of the bucket method for every window size
+    for w in 1..=20u64 {
+        if !is1 && !thorough && w % 4 != 0 {
+            continue;
+        }
+        let ks = vec![rand_scalar_bits(r, 255), w_ones(255, 4), w_or(&w_pow2(64 * (1 + (w as usize % 3)), 4), &w_pow2(63, 4)),
+                      rand_scalar_bits(r, 1 + (w as usize * 12) % 250)];
+        let kj: Vec<Value> = ks.iter().map(|k| nat(k)).collect();
+        let big = w > 14; // few points and short scalars keep the running sums of huge windows cheap
+        let pts: Vec<Value> = if big { vec![aj(&sub[0]), aj(&sub[1])] } else { vec![aj(&sub[0]), aj(&sub[1]), aj(&neg0), aj(&sub[2])] };
+        let kj2: Vec<Value> = if big { vec![nat(&w_pow2(w as usize * 3 % 255, 4)), nat(&w_ones(w as usize, 4))] } else { kj };
+        sessions.push(vec![json!({"op": "msm", "g": g, "fn": "pippenger_w", "window": w, "points": pts, "scalars": kj2,
+                                  "cls": format!("whitebox-w{}", w)})]);
+    }
     // large inputs over the labelled table; n straddles every boundary of the window heuristic
     let bounds: Vec<usize> = if thorough {
         vec![19, 20, 42, 43, 104, 105, 238, 239, 577, 578, 1257, 1258, 3463, 3464, 6491, 6492, 17145, 17146, 33675, 33676]
